@@ -16,8 +16,10 @@ import time
 
 from .common import SEED, VERIF_DIR
 
-EVID_DIR = os.path.join(VERIF_DIR, "evidence")
-REPLAY_DIR = os.path.join(VERIF_DIR, "replays")
+# the two overrides exist for tools_seeded.py / tools_mutate.py, which run checks against modified
+# scratch trees and must not touch the evidence of the real tree
+EVID_DIR = os.environ.get("VERIF_EVIDENCE_DIR") or os.path.join(VERIF_DIR, "evidence")
+REPLAY_DIR = os.environ.get("VERIF_REPLAY_DIR") or os.path.join(VERIF_DIR, "replays")
 KNOWN_FILE = os.path.join(VERIF_DIR, "known_findings.json")
 
 
